@@ -91,17 +91,12 @@ Definition pwalk_root_ok (n0 : N) (P D : nat) (prk : list (addr * nat)) (v : hv)
 
 Definition pwalk_fuel (n0 : N) (P D : nat) : nat := ((N.to_nat n0 + 1) * ((P + 1) * (D + 1)))%nat.
 
-(* a ranking of the cells for wf_prankb, by a fuelled DFS (the guard re-checks it) *)
-Fixpoint cell_rank (fuel : nat) (h : heap) (a : addr) : nat :=
-  match fuel with
-  | O => O
-  | S f =>
-      match hget h a with
-      | Some (OCell (HStruct l)) =>
-          fold_right (fun b m => Nat.max (S (cell_rank f h b)) m) O (tptrs (HStruct l))
-      | _ => O
-      end
-  end.
+(* a ranking of the cells for wf_prankb (Canon.iter_ranks: polynomial; the guard re-checks it) *)
+Definition cell_edges (h : heap) : list (addr * list addr) :=
+  flat_map (fun ao => match snd ao with
+                      | OCell (HStruct l) => [(fst ao, tptrs (HStruct l))]
+                      | _ => []
+                      end) h.
 
 Definition compute_prk (h : heap) : list (addr * nat) :=
-  flat_map (fun ao => match snd ao with OCell (HStruct _) => [(fst ao, cell_rank (S (length h)) h (fst ao))] | _ => [] end) h.
+  let edges := cell_edges h in iter_ranks (S (length edges)) edges [].
